@@ -3,14 +3,23 @@ from pyg_base._types import is_primitive
 from pyg_base._decorators import wrapper, getargs
 
 _cache = 'cache'
+def _items(value):
+    try:
+        return tuple(sorted([(k, _prehash(v)) for k, v in value.items()]))
+    except TypeError:
+        return tuple([(k, _prehash(v)) for k, v in value.items()])
+
 def _prehash(value):
-    if isinstance(value, (tuple,list)):
+    """
+    a hashable stand-in for value. A list, a tuple and a dict stand for different arguments even when their content is the same:
+    >>> assert _prehash([]) != _prehash({}) and _prehash([1,2]) != _prehash((1,2)) and _prehash({'a':1}) != _prehash([('a',1)])
+    """
+    if isinstance(value, tuple):
         return tuple([_prehash(v) for v in value])
+    elif isinstance(value, list):
+        return (list, tuple([_prehash(v) for v in value]))
     elif isinstance(value, dict):
-        try:
-            return tuple(sorted([(k, _prehash(v)) for k, v in value.items()]))
-        except TypeError:
-            return tuple([(k, _prehash(v)) for k, v in value.items()])
+        return (dict, _items(value))
     else:
         return value
 
@@ -36,7 +45,7 @@ class cache_func(wrapper):
 
     """
     def _key(self, *args, **kwargs):
-        return _prehash((args, kwargs))
+        return _prehash(args), _items(kwargs)
 
     def wrapped(self, *args, **kwargs):
         key = self._key(*args, **kwargs)
